@@ -126,7 +126,11 @@ class HWorld(object):
         exists = os.path.exists(self.file)
         disk = None
         if exists:
-            ds = self.xyz.load_ds(self.file, engine=self.engine)
+            try:
+                ds = self.xyz.load_ds(self.file, engine=self.engine)
+            except Exception as e:  # noqa
+                return dict(listing=listing, exists=exists, disk=None, mem=None,
+                            unreadable="%s: %s" % (type(e).__name__, str(e)[:160]))
             try:
                 disk = self.ds_map(ds, points)
             finally:
@@ -140,7 +144,7 @@ class HWorld(object):
         """(disk, mem) maps of the second output."""
         disk = mem = None
         if os.path.exists(self.file):
-            ds = self.xyz.load_ds(self.file, engine=self.engine)
+            ds = self.xyz.load_ds(self.file, engine=self.engine)      # (loadable: observe() was called just before)
             try:
                 disk = self.ds_map(ds, points, "y")
             finally:
@@ -257,6 +261,9 @@ def replay_h(case, variant, points):
                 return (label + ": raised %s: %s" % (type(exc).__name__, "".join(traceback.format_exception_only(type(exc), exc))[:300]),
                         "raise", k, notes)
             o = w.observe(points)
+            if o.get("unreadable"):
+                return (label + ": the data file %s cannot be loaded with its engine (%s) any more: %s" % (
+                    os.path.basename(w.file), w.engine, o["unreadable"]), "disk_value", k, notes)
             want_disk = parse_map(post["disk"])
             want_mem = parse_map(post["mem"])
             # directory: exactly the one file the naming rule dictates, or nothing
@@ -342,7 +349,11 @@ class SWorld(object):
         nan_point = bool(variant.get("nan_point"))
         self.nan_point = nan_point
 
+        mixed = self.mixed = bool(variant.get("mixed_types"))
+
         def fn(a, b, k=3):
+            if mixed and (isinstance(a, (bool, float, np.floating, str)) or not isinstance(b, (float, np.floating))):
+                return -1.0, -1.0      # a is drawn from ints, b from floats: each must arrive with its own type
             if nan_point and (a, b) == (2, 2):
                 return float("nan"), float("nan")        # a legitimate result: every output is NaN at this point
             return float(VER[0] * 1000 + 10 * a + b), float(a - b)
@@ -356,7 +367,7 @@ class SWorld(object):
 
     def new_session(self, h=1):
         # with flip_keys every run spells its own combos (defaults would fix the key order)
-        dc = None if self.variant.get("flip_keys") else {"a": [1, 2, 3], "b": [1, 2, 3]}
+        dc = None if self.variant.get("flip_keys") else {"a": [1, 2, 3], "b": [1.0, 2.0, 3.0] if self.mixed else [1, 2, 3]}
         self.samplers[h] = self.xyz.Sampler(self.runner, self.data_name, default_combos=dc, engine=self.engine)
         self.s = self.samplers[h]
 
@@ -380,9 +391,15 @@ class SWorld(object):
 
     def observe(self, h=1):
         exists = os.path.exists(self.data_name)
-        disk = self.rows_of(self.xyz.load_df(self.data_name, engine=self.engine)) if exists else None
+        unreadable = None
+        disk = None
+        if exists:
+            try:
+                disk = self.rows_of(self.xyz.load_df(self.data_name, engine=self.engine))
+            except Exception as e:  # noqa
+                unreadable = "%s: %s" % (type(e).__name__, str(e)[:160])
         mem = self.rows_of(self.samplers[h]._full_df)
-        return dict(exists=exists, disk=disk, mem=mem, listing=sorted(f for f in os.listdir(self.tmp) if not f.startswith(".xyz")))
+        return dict(exists=exists, disk=disk, mem=mem, unreadable=unreadable, listing=sorted(f for f in os.listdir(self.tmp) if not f.startswith(".xyz")))
 
 
 def replay_s(case, variant):
@@ -404,7 +421,7 @@ def replay_s(case, variant):
                         _, rows, v = ev["args"]
                         smp = w.samplers[h]
                         VER[0] = v
-                        feeds = {"a": [r[0] for r in rows], "b": [r[1] for r in rows]}
+                        feeds = {"a": [r[0] for r in rows], "b": [(float(r[1]) if w.mixed else r[1]) for r in rows]}
                         pos = {"a": 0, "b": 0}
 
                         def feeder(nm):
@@ -434,6 +451,8 @@ def replay_s(case, variant):
                 return (label + ": raised %s: %s" % (type(exc).__name__, str(exc)[:300]), "raise", k, notes)
             h = ev["args"][0]
             o = w.observe(h)
+            if o.get("unreadable"):
+                return (label + ": the table file cannot be read back any more: " + o["unreadable"], "table", k, notes)
             def _exp(r):
                 return [r[0], r[1], -2] if (w.nan_point and (r[0], r[1]) == (2, 2)) else list(r)
             want = [_exp(r) for r in post["table"]]
@@ -485,13 +504,17 @@ def _sjob(job):
 
 
 def collect(rep, results, keyfn):
+    harness = []
     for case, variant, prob, tag, step, notes in results:
         calls = [(ev["a"], ev["args"]) for ev in case["hist"]]
         rep.add_case([calls, variant], nontrivial=len(calls) >= 2,
                      sample=dict(calls=calls, variant=variant) if len(rep.samples) < 3 and len(calls) >= 3 else None)
         if prob and tag == "harness":
-            raise RuntimeError(prob)
+            harness.append(prob)
+            continue
         for n in notes[:1]:
             rep.note("note: " + n)
         if prob:
             rep.add_violation(dict(case=case, variant=variant), prob, key=keyfn(case, variant, tag, step))
+    if harness:
+        raise RuntimeError("%d replay(s) ended in a harness exception, first: %s" % (len(harness), harness[0]))
